@@ -824,6 +824,8 @@ def check_gate_kind_exhaustive(ctx, rule: str, modules: tuple[str, ...] = ("hype
 
 
 VARIANTS = [
+    Variant("literal-args-compared-as-types", "src/hypergraph/_typing.py", sub_once(r"        # Literal arguments are values, not types: every incoming value must be allowed\n        if incoming_origin is Literal:\n            return all\(value in required_args for value in incoming_args\)\n\n", ""), {"C19.R9"}),
+    Variant("mutex-expansion-on-structure-graph", "src/hypergraph/graph/_conflict.py", replace_once("    expanded_groups = _expand_mutex_groups(full, nodes)\n", "    expanded_groups = _expand_mutex_groups(G, nodes)\n"), {"C19.R7"}),
     Variant("subclass-generic-args-unchecked", "src/hypergraph/_typing.py", replace_once("        # Require same arity for generic args\n", "        if incoming_origin is not required_origin:\n            return True\n\n        # Require same arity for generic args\n"), {"C19.R9"}),
     Variant("identifier-check-data-outputs-only", VA, replace_once("        for output in node.outputs:\n            if not output.isidentifier():", "        for output in node.data_outputs:\n            if not output.isidentifier():"), {"C19.R10"}),
     Variant("union-rule-splits-generic", "src/hypergraph/_typing.py", replace_once("        return all(is_type_compatible(t, required_type, memo) for t in get_args(incoming_type))", "        required_args = get_args(required_type) or (required_type,)\n        return _all_types_compatible(get_args(incoming_type), required_args, memo)"), {"C19.R9"}),
